@@ -1,7 +1,7 @@
 (* C08 proofs, part 2: a failing single-document write leaves the visible state (documents,
-   indexes, created flag) unchanged, when no stored document is expired (for the update kind:
-   when no TTL index exists), and - for the update kind - when the error is a duplicate key or
-   no unique index exists. *)
+   indexes, created flag) unchanged, when no stored document is expired, and - for the update
+   kind - when no TTL index or no unique index exists (the rollback after a failed unique
+   check), and no unique index exists if the model's answer is EUnmodelled. *)
 From Coq Require Import ZArith List String Bool Ascii Lia.
 From Verif Require Import Value PyEq BsonOrder Path Filter Update Project Coll HistCheck.
 From Verif.Proofs Require Import C01Values C08Store.
@@ -216,7 +216,7 @@ Proof.
   unfold insert_doc. intros H Hn Hr.
   destruct d as [ | | | | | | | fs | ]; try (inv_pair H; apply same_vis_refl).
   set (t := match assoc "_id" fs with
-            | Some i => (c, fs, i)
+            | Some i => (c, fs, patch i)
             | None => (mkColl (docs c) (idx c) (forced c) (next_oid c + 1) (now c) (odocs c),
                        fs ++ [("_id", VOid (next_oid c))], VOid (next_oid c))
             end) in H.
@@ -264,8 +264,8 @@ Qed.
 (* ---------------------------------------------------------------- the update loop *)
 Lemma update_loop_fail c spec upd e c' : forall todo pre m md,
   docs c = pre ++ todo -> store_nd (docs c) -> all_refl (docs c) ->
-  (e <> EDup -> NoUnique (idx c)) ->
-  (e = EDup -> NoUnique (idx c) \/ NoTTL (idx c)) ->
+  (e = EUnmodelled -> NoUnique (idx c)) ->
+  (NoUnique (idx c) \/ NoTTL (idx c)) ->
   update_loop c spec upd false todo m md = (c', Err e) -> same_vis c c'.
 Proof.
   induction todo as [ | [k d] todo IH ]; simpl; intros pre m md Hd Hnd Hr Hu Hn H.
@@ -287,21 +287,20 @@ Proof.
     + assert (Hk : py_eq k k = true).
       { rewrite Hd in Hr. apply Forall_app in Hr. destruct Hr as [_ Hr].
         inversion Hr as [ | ? ? Hx _ ]; subst. exact Hx. }
-      assert (Hdup : e0 = EDup ->
-                     (with_docs c1 (store_set k d (docs c1)), @Err (Z * Z) EDup) = (c', Err e) ->
-                     same_vis c c').
-      { intros _ H'. inv_pair H'. unfold same_vis. simpl.
+      destruct Hn as [Hnu | Hnt].
+      { rewrite (ensure_uniques_none c1 d' Hnu) in Eu. discriminate. }
+      (* the rollback restores the store: without TTL index nothing expires in between *)
+      assert (Hroll : forall e1,
+                (match expire c1 with
+                 | Ok c2 => (with_docs c2 (store_set k d (docs c2)), @Err (Z * Z) e1)
+                 | Err _ => (c, Err e1)
+                 end) = (c', Err e) -> same_vis c c').
+      { intros e1 H'. rewrite (expire_id c1 Hnt) in H'. inv_pair H'. unfold same_vis. simpl.
         rewrite Hd. rewrite store_set_set; [ repeat split | rewrite <- Hd; exact Hnd | exact Hk ]. }
-      assert (Hoth : e0 <> EDup -> (c1, @Err (Z * Z) e0) = (c', Err e) -> same_vis c c').
-      { intros Hne H'. inv_pair H'. exfalso.
-        rewrite (ensure_uniques_none c1 d' (Hu Hne)) in Eu. discriminate. }
-      destruct e0; try (apply Hoth; [ discriminate | exact H ]).
-      destruct (expire c1) as [c2|e2] eqn:E2; [ | inv_pair H; apply same_vis_refl ].
-      assert (He : e = EDup) by (inversion H; reflexivity).
-      destruct (Hn He) as [Hnu | Hnt].
-      * rewrite (ensure_uniques_none c1 d' Hnu) in Eu. discriminate.
-      * rewrite (expire_id c1 Hnt) in E2. inv_pair E2.
-        apply Hdup; [ reflexivity | exact H ].
+      destruct e0; try (eapply Hroll; exact H).
+      (* the uniqueness check left the model: only without unique index, where it cannot *)
+      inv_pair H. exfalso.
+      rewrite (ensure_uniques_none c1 d' (Hu eq_refl)) in Eu. discriminate.
 Qed.
 
 Lemma update_loop_ok_same : forall todo c spec upd multi m md c' m' md',
@@ -324,15 +323,15 @@ Proof.
       destruct multi.
       * apply IH in H. destruct H as [H1 H2]. split; [ lia | intros; lia ].
       * inv_pair H. split; [ lia | intros; lia ].
-    + destruct e0; try discriminate. destruct (expire c1); discriminate.
+    + destruct e0; try discriminate; destruct (expire c1); discriminate.
 Qed.
 
 (* ---------------------------------------------------------------- update / replace *)
 Lemma update_fail pre5 c f u upsert c' e :
   update pre5 c f u false upsert = (c', Err e) ->
   store_nd (docs c) -> all_refl (docs c) -> all_refl (docs c') -> AllAlive c ->
-  (e <> EDup -> NoUnique (idx c)) ->
-  (e = EDup -> NoUnique (idx c) \/ NoTTL (idx c)) -> same_vis c c'.
+  (e = EUnmodelled -> NoUnique (idx c)) ->
+  (NoUnique (idx c) \/ NoTTL (idx c)) -> same_vis c c'.
 Proof.
   unfold update. intros H Hi Hr Hr' Hn Hu Ht.
   destruct (patch f) as [ | | | | | | | sfs | ]; try (inv_pair H; apply same_vis_refl).
@@ -367,8 +366,8 @@ Qed.
 Lemma update_op_fail pre5 c f u upsert c' e :
   update_op pre5 c f u false upsert = (c', Err e) ->
   store_nd (docs c) -> all_refl (docs c) -> all_refl (docs c') -> AllAlive c ->
-  (e <> EDup -> NoUnique (idx c)) ->
-  (e = EDup -> NoUnique (idx c) \/ NoTTL (idx c)) -> same_vis c c'.
+  (e = EUnmodelled -> NoUnique (idx c)) ->
+  (NoUnique (idx c) \/ NoTTL (idx c)) -> same_vis c c'.
 Proof.
   unfold update_op. intros H.
   destruct u; try (inv_pair H; intros; apply same_vis_refl).
@@ -379,8 +378,8 @@ Qed.
 Lemma replace_op_fail pre5 c f u upsert c' e :
   replace_op pre5 c f u upsert = (c', Err e) ->
   store_nd (docs c) -> all_refl (docs c) -> all_refl (docs c') -> AllAlive c ->
-  (e <> EDup -> NoUnique (idx c)) ->
-  (e = EDup -> NoUnique (idx c) \/ NoTTL (idx c)) -> same_vis c c'.
+  (e = EUnmodelled -> NoUnique (idx c)) ->
+  (NoUnique (idx c) \/ NoTTL (idx c)) -> same_vis c c'.
 Proof.
   unfold replace_op. intros H.
   destruct u; try (inv_pair H; intros; apply same_vis_refl).
@@ -411,8 +410,8 @@ Definition fam_is_update (k : fam_kind) : bool :=
 Lemma find_and_modify_fail pre5 c f proj sort k c' e :
   find_and_modify pre5 c f proj sort k = (c', Err e) ->
   store_nd (docs c) -> all_refl (docs c) -> all_refl (docs c') -> AllAlive c ->
-  (e = EDup -> fam_is_update k = true -> NoUnique (idx c) \/ NoTTL (idx c)) ->
-  (e <> EDup -> fam_is_update k = true -> NoUnique (idx c)) ->
+  (fam_is_update k = true -> NoUnique (idx c) \/ NoTTL (idx c)) ->
+  (e = EUnmodelled -> fam_is_update k = true -> NoUnique (idx c)) ->
   fam_after k = false -> same_vis c c'.
 Proof.
   unfold find_and_modify. intros H Hi Hr Hr' Hn Hnt Hu Ha.
